@@ -40,6 +40,9 @@ pub enum SKind {
     Iter,
     IterViaMacro,
     IterViaMacroRefRef,
+    /// `into_iter!(&[T; N])` / `into_iter!(&&[T; N])` for N = len <= 6
+    IterViaMacroArray,
+    IterViaMacroArrayRefRef,
     Copied,
     Windows,
     Chunks,
@@ -48,10 +51,12 @@ pub enum SKind {
     RChunksExact,
     ArrayChunks,
 }
-const KINDS: [SKind; 10] = [
+const KINDS: [SKind; 12] = [
     SKind::Iter,
     SKind::IterViaMacro,
     SKind::IterViaMacroRefRef,
+    SKind::IterViaMacroArray,
+    SKind::IterViaMacroArrayRefRef,
     SKind::Copied,
     SKind::Windows,
     SKind::Chunks,
@@ -233,7 +238,7 @@ impl<T: Elem> Fam for SliceFam<T> {
     fn m_new<'a>(s: &SSetup, d: &'a Vec<T>) -> SM<'a, T> {
         let sl = d.as_slice();
         let it = match s.kind {
-            SKind::Iter | SKind::IterViaMacro | SKind::IterViaMacroRefRef | SKind::Copied => SMI::Iter(sl.iter()),
+            SKind::Iter | SKind::IterViaMacro | SKind::IterViaMacroRefRef | SKind::IterViaMacroArray | SKind::IterViaMacroArrayRefRef | SKind::Copied => SMI::Iter(sl.iter()),
             SKind::Windows => SMI::Win(sl.windows(s.size)),
             SKind::Chunks => SMI::Ch(sl.chunks(s.size)),
             SKind::RChunks => SMI::RCh(sl.rchunks(s.size)),
@@ -249,6 +254,21 @@ impl<T: Elem> Fam for SliceFam<T> {
             SKind::Iter => SK::Iter(ks::iter(sl)),
             SKind::IterViaMacro => SK::Iter(konst::iter::into_iter!(sl)),
             SKind::IterViaMacroRefRef => SK::Iter(konst::iter::into_iter!(&sl)),
+            SKind::IterViaMacroArray | SKind::IterViaMacroArrayRefRef => {
+                let rr = s.kind == SKind::IterViaMacroArrayRefRef;
+                macro_rules! arr {
+                    ($($n:literal),*) => {
+                        match sl.len() {
+                            $( $n => {
+                                let a: &'a [T; $n] = sl.try_into().expect("length checked");
+                                if rr { SK::Iter(konst::iter::into_iter!(&a)) } else { SK::Iter(konst::iter::into_iter!(a)) }
+                            } )*
+                            _ => SK::Iter(konst::iter::into_iter!(sl)),
+                        }
+                    };
+                }
+                arr!(0, 1, 2, 3, 4, 5, 6)
+            }
             SKind::Copied => SK::Cop(ks::iter_copied(sl)),
             SKind::Windows => SK::Win(ks::windows(sl, s.size)),
             SKind::Chunks => SK::Ch(ks::chunks(sl, s.size)),
